@@ -35,13 +35,13 @@ def selftest():
     assert p.startswith(os.path.realpath(repo) + os.sep), "flow.record imported from %s, not %s" % (p, repo)
     d = scratch_dir()
     open(os.path.join(d, "x"), "w").close()
-    import jsonschema  # noqa: F401
+    from mc.report import validate_json
 
     here = os.path.dirname(os.path.dirname(os.path.abspath(__file__)))
     with open(os.path.join(here, "MANIFEST.json")) as f:
         man = json.load(f)
-    with open("/root/.vp/MANIFEST.schema.json") as f:
-        jsonschema.validate(man, json.load(f))
+    err = validate_json(os.path.join(here, "MANIFEST.json"), "/root/.vp/MANIFEST.schema.json")
+    assert not err, err
     print("selftest ok: flow.record from %s; scratch %s; manifest valid (%d checks)" % (p, d, len(man["checks"])))
     return 0
 
